@@ -3,6 +3,7 @@ Real parsers (tie/impl/c10_run.py): cfg = parse(x); parser.validate(cfg); parse_
 parse_object(cfg.clone().as_dict()).  Modelled cases (kind "ns") are judged against Model/C10Adapt.v + Model/C10Parser.v
 and Spec/C10Spec.v inside Coq; cases outside the modelled grammar (kind "x") are judged against the spec only."""
 import json
+import sys
 from decimal import Decimal
 
 from tie.framework import g_bool, g_list, g_pair, g_str, g_Z, run_impl_parallel
@@ -50,6 +51,8 @@ ASSUMPTIONS = [
     "declared defaults of list-append arguments conform to their type (parse_args never checks an overridden default)",
     "dict objects carry no dotted keys and no scalar for a group key; parsers have no environment, config-file argument, "
     "subcommand or link (those are C04/C06/C15/C17)",
+    "declared defaults reach the model as the parser keeps them (ActionTypeHint.normalize_default, e.g. an Enum member becomes its "
+    "name, is observed, not modelled); generated type hints are normalised the way typing does (nested Unions flattened, duplicates dropped)",
     "metadata: the object re-parse must hand back the '__path__' entries it was given (full equality); the dump leg compares "
     "modulo '__path__' entries, which text cannot carry (DESIGN A.6)",
     "history: C10 quantifies over parsers and inputs, not over call histories (that is C09); the one history exercised is a failed "
@@ -123,7 +126,31 @@ JUNK = [S("abc"), S(""), S(" "), S("1"), S("-3"), S("1.5"), S("1e3"), S("true"),
         L([I(1), S("1")]), L([NONE]), L([B(True)]), L([I(2), I(1), I(2)]), L([S("b"), S("a")]), D([(S("a"), L([I(1)]))])]
 
 
+def norm_ty(t):
+    """what typing makes of the hint: nested Unions flattened (at every level), duplicate members dropped, Union[X] = X"""
+    k = t[0]
+    if k == "union":
+        out = []
+        for m in t[1]:
+            m = norm_ty(m)
+            for x in (m[1] if m[0] == "union" else [m]):
+                if x not in out:
+                    out.append(x)
+        return out[0] if len(out) == 1 else ["union", out]
+    if k in ("list", "tuplevar", "set"):
+        return [k, norm_ty(t[1])]
+    if k == "dict":
+        return [k, t[1], norm_ty(t[2])]
+    if k == "tuple":
+        return [k, [norm_ty(x) for x in t[1]]]
+    return t
+
+
 def gen_type(rng, depth):
+    return norm_ty(gen_type_(rng, depth))
+
+
+def gen_type_(rng, depth):
     if depth <= 0 or rng.random() < 0.3:
         k = rng.randrange(10)
         if k < 6:
@@ -742,6 +769,22 @@ def curated_x():
     ]
 
 
+def search(rng, tier, broken):
+    """bounded failing-input search after a broken proof / tie (the framework's default would re-run the thorough tier):
+    a fresh quick-sized sample, judged in Coq; a spec failure that is not a listed finding is the failing input"""
+    from tie import framework as fw
+
+    cases = [gen_ns(rng) for _ in range(1200)] + [gen_x(rng) for _ in range(400)]
+    obs = observe(cases)
+    _, bad_in, bad_out = fw.judge_cases(sys.modules[__name__], cases, obs, tag="x")
+    known = fw.load_known_findings(PROP)
+    bad = sorted(set(bad_in) | {i for i, k in bad_out if FINDING_CLASSES.get(k) not in known})
+    if not bad:
+        return None
+    i = bad[0]
+    return {"case": cases[i], "observed": obs[i], "explain": describe(cases[i], obs[i])}
+
+
 def generate(rng, tier):
     n_ns, n_x = (1800, 500) if tier == "quick" else (16000, 3200)
     cases = curated() + curated_x()
@@ -1102,23 +1145,32 @@ def shrink(case):
 
 
 def simpler_types(t):
+    seen = []
+    for t2 in simpler_types_(t):
+        t2 = norm_ty(t2)
+        if t2 != t and t2 not in seen:
+            seen.append(t2)
+            yield t2
+
+
+def simpler_types_(t):
     k = t[0]
     if k == "union":
         for i in range(len(t[1])):
             rest = t[1][:i] + t[1][i + 1:]
             yield rest[0] if len(rest) == 1 else ["union", rest]
         for i, m in enumerate(t[1]):
-            for m2 in simpler_types(m):
+            for m2 in simpler_types_(m):
                 yield ["union", t[1][:i] + [m2] + t[1][i + 1:]]
     elif k in ("list", "tuplevar", "set"):
-        for m2 in simpler_types(t[1]):
+        for m2 in simpler_types_(t[1]):
             yield [k, m2]
     elif k == "dict":
-        for m2 in simpler_types(t[2]):
+        for m2 in simpler_types_(t[2]):
             yield [k, t[1], m2]
     elif k == "tuple":
         for i, m in enumerate(t[1]):
-            for m2 in simpler_types(m):
+            for m2 in simpler_types_(m):
                 yield ["tuple", t[1][:i] + [m2] + t[1][i + 1:]]
 
 
